@@ -225,3 +225,33 @@ SPECS["C07"] = {
     "level_note": "relies on the C06 generator producing valid documents (validated there by the strict reference parser)",
     "assumptions": [],
 }
+
+
+# ---------------------------------------------------------------------------------------------- C08
+def plan_c08(tier, seed):
+    if tier == "quick":
+        return checks("main", 8, 12000)
+    return checks("main", 14, 150000) + checks("nohook_avx2", 2, 100000)
+
+
+SPECS["C08"] = {
+    "builds": {
+        "main": Build("main", "harness/c08_stringify.cpp"),
+        "nohook_avx2": Build("nohook_avx2", "harness/c08_stringify.cpp", hook=False, simd="avx2"),
+    },
+    "default_build": "main",
+    "plan": plan_c08,
+    "rule": ("case = entropy bytes -> construction program over the public Value API (every scalar assignment overload incl. float/int/unsigned, "
+             "strings through C-string / String copy and move / StringView / (ptr,len) constructor, arrays grown by += copy/move and indexed write, "
+             "objects through [] by C-string/String/StringView, Get, Insert with duplicate keys, RemoveIndex / Remove incl. last and all members, "
+             "pointer-to-value members, nesting <= 6, strings over all code units incl. NUL/controls/quote/backslash/astral and a labelled ill-formed class, "
+             "numeric extremes, -0, subnormals) with the model tree kept alongside; non-trivial = has a string needing an escape, a removed member or a real; "
+             "distinct by entropy and width"),
+    "engine": "rapidcheck",
+    "technique": "property-based testing (rapidcheck): round-trip oracle against a model tree built alongside, fixed-point relation, and an independent strict RFC 8259 reference parser on the emitted text",
+    "level_text": ("Stringify(17) text is (1) parsed back by the library and compared with the model (Undefined members omitted, numbers by value), (2) re-stringified "
+                   "and compared byte for byte (fixed point), (3) when all strings are well-formed, validated by a strict RFC 8259 parser written in the harness whose "
+                   "tree (numbers via strtod) must equal the model. Sampling."),
+    "level_note": "trusts the in-harness strict parser and glibc strtod; python3 json.loads cross-checks sampled texts in tools/python_crosscheck.py",
+    "assumptions": [],
+}
